@@ -281,6 +281,20 @@ def probes(st, tier, seed):
             st.known_lines.append(f["what"])
         except (Violation, Inconclusive):
             st.known_lines.append(f["what"])
+    # regression tier: saved inputs of findings that were repaired since (no longer listed) must be handled cleanly
+    import glob
+    listed = {f.get("input") for f in common.findings_for(PID)}
+    for path in sorted(glob.glob(os.path.join(common.ROOT, "corpus", PID, "*.json"))):
+        if os.path.relpath(path, common.ROOT) in listed:
+            continue
+        case = json.load(open(path))
+        st.classes["regression_inputs_of_repaired_findings"] += 1
+        try:
+            judge(case, None)
+        except Violation as v:
+            st.violations.append({"case": case, "msg": v.msg})
+        except (Discard, Inconclusive):
+            pass
 
 
 CHECK = PCheck(PID, RULE, gen, judge, quick=6000, thorough=200000, floor=500, known_match=known_match, probes=probes,
